@@ -19,9 +19,16 @@ type vhFeeder struct {
 	lines   []int // end offsets of complete lines in data
 	lineWise bool
 	errWithData bool
+	limit    int  // >0: only data[:limit] has been produced so far; asking for more would block
+	blocked  bool // Read was called although nothing more was available
 }
 
 func (f *vhFeeder) Read(p []byte) (int, error) {
+	if f.limit > 0 && f.pos >= f.limit {
+		// the producer has stalled here: a real Read would block
+		f.blocked = true
+		return 0, io.EOF
+	}
 	if f.pos == len(f.data) {
 		if f.failure {
 			return 0, vhErrBoom
@@ -37,6 +44,9 @@ func (f *vhFeeder) Read(p []byte) (int, error) {
 				break
 			}
 		}
+	}
+	if f.limit > 0 && end > f.limit {
+		end = f.limit
 	}
 	n := copy(p, f.data[f.pos:end])
 	f.pos += n
@@ -125,6 +135,7 @@ func (sp *vhStreamSpec) goroutine(dump int, tag string, created bool) {
 //	7 dump(1), blank, race report, text              (dump followed by a race report)
 //	8 text, separator, text (no report)              9 text, separator, warning, text
 //	10 indented dump(2)   11 CRLF dump with minutes/lock/aggregate/elision   12 elided frames, creator id, unavailable stack
+//	13 dump followed by two blank lines
 func vhSkeleton(sk int) *vhStreamSpec {
 	sp := &vhStreamSpec{}
 	text := func(tag string) { sp.add(-1, vhJunk(tag, 3), []byte("\n")) }
@@ -224,6 +235,14 @@ func vhSkeleton(sk int) *vhStreamSpec {
 		sp.add(0, []byte("\r\n"))
 		text("t1")
 		sp.dumps, sp.gor = 1, []int{1}
+	case 13:
+		// two blank lines after the dump: only the first one belongs to it
+		text("t0")
+		sp.goroutine(0, "g0", true)
+		blank(0)
+		sp.add(-1, []byte("\n"))
+		text("t1")
+		sp.dumps, sp.gor = 1, []int{1}
 	default:
 		// elided frames, unavailable stack, creator with goroutine id
 		sp.add(0, []byte("goroutine 1 [running]:\n"))
@@ -232,7 +251,7 @@ func vhSkeleton(sk int) *vhStreamSpec {
 		sp.add(0, []byte("...5 frames elided...\n"))
 		sp.add(0, []byte("main.g()\n"))
 		sp.add(0, []byte("\t/a.go:2 +0x1\n"))
-		sp.add(0, []byte("created by main.h in goroutine 7\n"))
+		sp.add(0, []byte("created by net/http.(*Server).Serve in goroutine 7\n"))
 		sp.add(0, []byte("\t/a.go:3 +0x1\n"))
 		sp.add(0, []byte("\n"))
 		sp.add(0, []byte("goroutine 2 [runnable]:\n"))
@@ -265,13 +284,13 @@ func (c *vhChain) Read(p []byte) (int, error) {
 // text outside the dumps in order, and terminates with EOF.  (C02, C07, C11)
 //
 //verif:prop C07
-//verif:param sk 0..7,10..12
+//verif:param sk 0..7,10..13
 func VH_E2E_Resume(sk int) { vhResume(sk, "C07") }
 
 // VH_C02_Conserve: the same run, asserted as stream conservation.
 //
 //verif:prop C02
-//verif:param sk 0..12
+//verif:param sk 0..13
 func VH_C02_Conserve(sk int) { vhResume(sk, "C02") }
 
 func vhResume(sk int, _ string) {
@@ -490,4 +509,37 @@ func VH_C11_ReturnsEarly(sk int) {
 	}
 	vAssert(f.pos == sp.lines[term].end, "nothing past the line that ends the dump has been requested")
 	vAssert(len(suffix) == sp.lines[term].end-sp.lines[term].start, "the remainder is exactly that line")
+}
+
+// VH_C11_ReturnsAtStall: the producer delivers the whole trace plus the first
+// extra bytes of the following line and then stalls: the scan returns the
+// finished snapshot without asking for more input (for a race report the
+// closing separator is the last line of the trace; for a goroutine dump the
+// terminating line must be complete).
+//
+//verif:prop C11
+//verif:param sk 6,7
+//verif:param extra 1..2
+func VH_C11_ReturnsAtStall(sk, extra int) {
+	sp := vhSkeleton(sk)
+	// end of the last dump's last line
+	end := 0
+	for _, l := range sp.lines {
+		if l.dump == sp.dumps-1 {
+			end = l.end
+		}
+	}
+	f := &vhFeeder{data: sp.data, limit: end + extra}
+	w := &vhSink{}
+	var in io.Reader = f
+	var snap *Snapshot
+	var err error
+	for i := 0; i < sp.dumps; i++ {
+		var suffix []byte
+		snap, suffix, err = ScanSnapshot(in, w, &Opts{})
+		in = &vhChain{head: suffix, rest: in}
+	}
+	vReach("race report delivered, producer stalled")
+	vAssert(snap != nil && err == nil, "the finished report is returned")
+	vAssert(!f.blocked, "the scan returns without asking the stalled producer for more")
 }
